@@ -320,3 +320,30 @@ Example C13_reader_code_nonvacuous :
     [Zero; Data lbrace; Data rbrace; Zero; DataEOF lbrace] =
     Ret (([(s "n", VFlt (s "2"))], s "{}", None), [Zero; DataEOF lbrace]).
 Proof. vm_compute. reflexivity. Qed.
+
+(* ---- tie to the CURRENT sources of the two single-byte adaptors (xml.go: byteReader.ReadByte, teeReader.ReadByte):
+   go2v re-translates the methods on every run (the receiver's fields as threaded state, the loop of at most 100 Reads,
+   the Write of the byte to the raw buffer) and GenProofs/PureG11.v proves the translations equal to the models
+   [br_read_byte] / [tr_read_byte] the XML reader theorems above are stated with, on EVERY reader schedule.
+   [loop_buf]: the content of the adaptor's one-byte buffer afterwards (the last byte delivered). *)
+From Mxj Require Import GenProofs.PureG11.
+
+Theorem C13_byte_reader_code_is_model : forall st sc c rest,
+  fn_byteReader_ReadByte st sc (c :: rest)
+  = Ret (rb_res (fst (br_read_byte sc)), (snd (br_read_byte sc), loop_buf 100 sc c :: rest)).
+Proof. exact byte_reader_code_is_model. Qed.
+Print Assumptions C13_byte_reader_code_is_model.
+
+Theorem C13_tee_reader_code_is_model : forall st t c,
+  fn_teeReader_ReadByte st (tr_r t) (tr_w t) [c]
+  = let r := tr_read_byte t in
+    Ret (rb_pair (fst r), (tr_r (snd r), tr_w (snd r), [loop_buf 100 (tr_r t) c])).
+Proof. exact tee_reader_code_is_model. Qed.
+Print Assumptions C13_tee_reader_code_is_model.
+
+Example C13_adaptor_code_nonvacuous :
+  fn_teeReader_ReadByte gstate0 [Zero; Zero; DataEOF "x"%char; Eof] (s "ab") [zero_byte]
+    = Ret (("x"%char, None), ([Eof], s "abx", ["x"%char])) /\
+  fn_byteReader_ReadByte gstate0 (repeat Zero 100 ++ [Data "x"%char]) [zero_byte]
+    = Ret (Err EOther, ([Data "x"%char], [zero_byte])).
+Proof. split; vm_compute; reflexivity. Qed.
